@@ -87,10 +87,16 @@ type cfg struct {
 	stream  bool
 	mtu     int
 	content string
+	v6      bool // IPv6 listener, client, allocation and peers
 }
 
 func (c cfg) String() string {
-	return fmt.Sprintf("stream=%v mtu=%d content=%s", c.stream, c.mtu, c.content)
+	s := fmt.Sprintf("stream=%v mtu=%d content=%s", c.stream, c.mtu, c.content)
+	if c.v6 {
+		s += " ipv6"
+	}
+
+	return s
 }
 
 func effMTU(m int) int {
@@ -111,7 +117,11 @@ func run(t *testing.T, r *rep.Report, c cfg, lens []int) {
 			}
 		}()
 		synctest.Test(t, func(*testing.T) {
-			w, err := vtx.NewWorld(vtx.Config{Stream: c.stream, MTU: c.mtu}, []string{"c1"}, []string{"A", "A2", "B"})
+			cn, nA, nA2, nB := "c1", "A", "A2", "B"
+			if c.v6 {
+				cn, nA, nA2, nB = "c6", "V6", "V62", "V6b"
+			}
+			w, err := vtx.NewWorld(vtx.Config{Stream: c.stream, MTU: c.mtu, V6: c.v6}, []string{cn}, []string{nA, nA2, nB})
 			if err != nil {
 				r.Violate(rep.Violation{Oracle: "harness", Signature: "harness:newworld", Detail: err.Error()})
 
@@ -119,17 +129,17 @@ func run(t *testing.T, r *rep.Report, c cfg, lens []int) {
 			}
 			defer w.Close()
 			x := &vtx.Exec{W: w, M: vtx.NewModel(w.Cfg)}
-			for _, ev := range []vtx.Event{{K: "alloc", C: "c1", L: -1}, {K: "perm", C: "c1", Peers: []string{"A"}, L: -1},
-				{K: "chan", C: "c1", N: 0x4000, Peers: []string{"B"}, L: -1}} {
+			for _, ev := range []vtx.Event{{K: "alloc", C: cn, L: -1}, {K: "perm", C: cn, Peers: []string{nA}, L: -1},
+				{K: "chan", C: cn, N: 0x4000, Peers: []string{nB}, L: -1}} {
 				if v := x.Apply(ev); v != nil {
 					r.Violate(rep.Violation{Oracle: "harness", Signature: "harness:setup:" + v.Sig, Detail: v.Detail})
 
 					return
 				}
 			}
-			c1 := w.C["c1"]
-			relay := x.M.Allocs["c1"].Relay
-			pa, pb, pa2 := w.P["A"], w.P["B"], w.P["A2"]
+			c1 := w.C[cn]
+			relay := x.M.Allocs[cn].Relay
+			pa, pb, pa2 := w.P[nA], w.P[nB], w.P[nA2]
 			// the permission was installed naming A's port; A2 shares the IP and is therefore permitted too,
 			// and must be attributed with its own port
 			lens = append(append([]int{}, lens...), -1) // -1: final small probe, delivery mandatory
@@ -145,7 +155,10 @@ func run(t *testing.T, r *rep.Report, c cfg, lens []int) {
 				}
 				for range copies {
 					// 1 Send -> A, 2 ChannelData -> B, 3 A -> Data indication, 4 B -> ChannelData
-					c1.Send(wire.New(wire.Send, wire.Indication, w.NextTx()).XorAddr(wire.AttrXORPeerAddress, pa.Addr.IP, pa.Addr.Port).Attr(wire.AttrData, pl).Bytes())
+					// (a Send indication for an IPv6 peer has room for 65504 payload bytes: longer ones cannot be expressed)
+					if xl := map[bool]int{false: 12, true: 24}[c.v6]; xl+4+(l+3)/4*4 <= 0xFFFF {
+						c1.Send(wire.New(wire.Send, wire.Indication, w.NextTx()).XorAddr(wire.AttrXORPeerAddress, pa.Addr.IP, pa.Addr.Port).Attr(wire.AttrData, pl).Bytes())
+					}
 					c1.Send(wire.ChannelData(0x4000, pl, c.stream))
 					_, _ = pa.Sock.WriteTo(pl, relay)
 					_, _ = pb.Sock.WriteTo(pl, relay)
@@ -158,15 +171,15 @@ func run(t *testing.T, r *rep.Report, c cfg, lens []int) {
 				for _, d := range got {
 					path := ""
 					switch {
-					case d.At == "A" && d.Kind == "udp":
+					case d.At == nA && d.Kind == "udp":
 						path = "send->peer"
-					case d.At == "B" && d.Kind == "udp":
+					case d.At == nB && d.Kind == "udp":
 						path = "chandata->peer"
-					case d.At == "c1" && d.Kind == "data" && d.Peer == pa2.Addr.String():
+					case d.At == cn && d.Kind == "data" && d.Peer == pa2.Addr.String():
 						path = "peer(same-ip-other-port)->data-indication"
-					case d.At == "c1" && d.Kind == "data":
+					case d.At == cn && d.Kind == "data":
 						path = "peer->data-indication"
-					case d.At == "c1" && d.Kind == "chan":
+					case d.At == cn && d.Kind == "chan":
 						path = "peer->chandata"
 					}
 					fail := func(sig, detail string) {
@@ -216,6 +229,12 @@ func run(t *testing.T, r *rep.Report, c cfg, lens []int) {
 						r.Violate(rep.Violation{Oracle: "c05", Signature: "small-datagram-not-relayed:" + path,
 							Detail: fmt.Sprintf("%s: after lengths %d..%d a 10-byte datagram was delivered %d times on %s", c, lens[0], lens[len(lens)-2], n, path)})
 					}
+					if n < copies && l < min(effMTU(c.mtu), 1600)-100 {
+						// "too large to be relayed whole" is the only licence to drop: nothing this far below every buffer is
+						r.Violate(rep.Violation{Oracle: "c05", Signature: "datagram-not-too-large-dropped:" + path + ":" + lenClass(l, effMTU(c.mtu)),
+							Detail: fmt.Sprintf("%s len=%d: %d deliveries for %d sent", c, l, n, copies),
+							Replay: map[string]any{"engine": "enum-c05", "stream": c.stream, "mtu": c.mtu, "content": c.content, "len": l, "v6": c.v6}})
+					}
 					if n > copies {
 						r.Violate(rep.Violation{Oracle: "c05", Signature: "duplicated:" + path, Detail: fmt.Sprintf("%s len=%d: %d deliveries for %d sent", c, l, n, copies)})
 					}
@@ -225,7 +244,11 @@ func run(t *testing.T, r *rep.Report, c cfg, lens []int) {
 					} else if n < copies {
 						st = "partly-dropped"
 					}
-					r.Class(fmt.Sprintf("stream=%v mtu=%d %s %s %s -> %s", c.stream, effMTU(c.mtu), c.content, path, lenClass(l, effMTU(c.mtu)), st))
+					fam := ""
+					if c.v6 {
+						fam = "ipv6 "
+					}
+					r.Class(fmt.Sprintf("%sstream=%v mtu=%d %s %s %s -> %s", fam, c.stream, effMTU(c.mtu), c.content, path, lenClass(l, effMTU(c.mtu)), st))
 				}
 			}
 		})
@@ -245,8 +268,12 @@ func TestC05(t *testing.T) {
 	for _, stream := range []bool{false, true} {
 		for _, mtu := range []int{0, 600, 9000} {
 			for _, ct := range contents {
-				cfgs = append(cfgs, cfg{stream, mtu, ct})
+				cfgs = append(cfgs, cfg{stream: stream, mtu: mtu, content: ct})
 			}
+		}
+		// IPv6 end to end (the XOR of a 16-byte address involves the transaction id)
+		for _, ct := range contents {
+			cfgs = append(cfgs, cfg{stream: stream, content: ct, v6: true})
 		}
 	}
 	// shard over (config, length block)
